@@ -61,6 +61,8 @@ class FnSpec:
     options: dict = field(default_factory=dict)
     hints: dict = field(default_factory=dict)  # where -> [ast.expr] ghost lemma calls
     ghosts: list = field(default_factory=list)  # [(name, ast.expr)] entry-state let-bindings
+    local_sorts: dict = field(default_factory=dict)
+    reraise: dict = field(default_factory=dict)  # raises-clause ordinal -> name of the Exc parameter whose object is re-raised
 
     @property
     def unit(self):
@@ -313,6 +315,8 @@ def _load_fn(m: Module, node: ast.FunctionDef, kind, deco):
                     strict = _const(kw.value)
                 if kw.arg == "ensures":
                     ens = kw.value
+                if kw.arg == "reraise":
+                    fs.reraise[len(fs.raises)] = _const(kw.value)
             en = call.args[0]
             fs.raises.append((ast.unparse(en), when, strict))
             fs.raise_ensures.append(ens)
@@ -330,6 +334,9 @@ def _load_fn(m: Module, node: ast.FunctionDef, kind, deco):
             fs.loop_index[_const(call.args[0])] = _const(call.args[1])
         elif fn == "note":
             fs.notes.append(_const(call.args[0]))
+        elif fn == "local":
+            # local("name", Sort): sort of a local that the code initialises with an empty literal
+            fs.local_sorts[_const(call.args[0])] = m.sort_of(call.args[1])
         elif fn == "ghost":
             # ghost(name, expr): a specification-only name for the entry-state value of expr
             fs.ghosts.append((_const(call.args[0]), call.args[1]))
